@@ -186,7 +186,7 @@ pub fn c12_def() -> PropDef {
 pub fn c15_def() -> PropDef {
     PropDef {
         id: "C15",
-        generate: |vs, idx, _| Record::Builder(crate::c15::generate(run_seed(vs, "C15", idx), idx)),
+        generate: |vs, idx, tier| Record::Builder(crate::c15::generate(run_seed(vs, "C15", idx), idx, tier == crate::driver::Tier::Thorough)),
         check: |rec, c| match rec {
             Record::Builder(h) => crate::c15::check(h, c),
             _ => Verdict::harness("wrong record kind".into()),
